@@ -13,6 +13,7 @@ cross-checks the writer's bytes with an independent decoder (`_decode_bin`) that
 from __future__ import annotations
 
 import io
+import os
 import struct
 from uuid import UUID
 
@@ -153,6 +154,13 @@ H_ATTRS = ["a", "Val", 'q"', "b\\", "bs\\n", "nl\nA", "{", "//", "café", LONG, 
 H_TYPES_VT = ["int", "element", "string_array", "Element", "elementid", "binary"]       # element types that look like value types
 H_ATTRS_NAME = ["Name", "NAME"]                                                          # attribute keys that casefold to 'name'
 SLOTS = ["rootname", "name", "roottype", "type", "attr", "sval", "sarr", "attr_child", "type_vt", "attr_name"]
+
+
+# proposed known-finding regions (expressions over the harness arguments), see reports/C14.md
+KNOWN_REGIONS = {
+    "strings.valuetype_names": "fmt_i in (5, 7) and idx != 4",      # nested KV2, inline child whose type reads as a value type
+    "strings.name_casing": "fmt_i < 5",                              # binary: attribute count excludes 'name' by key, the loop by attr.name
+}
 
 
 def _dmx():
@@ -594,40 +602,56 @@ def _header_end(f):
     raise Fail("no header terminator")
 
 
-def h_values(iv: int, iw: int, bv: bool, r: int, g: int, b: int, a: int, blob: bytes, nblob: int, version: int) -> None:
-    """Binary export -> parse_bin with symbolic wire values: int32 scalar and 2-array, bool, colour channels, blob bytes."""
+def h_values(iv: int, iw: int, bv: bool, r: int, g: int, b: int, a: int, blob: bytes, nblob: int, version: int, kind: str) -> None:
+    """Binary export -> parse_bin with symbolic wire values, one kind per slice: int32 scalar and 2-array / bool scalar and
+    array / colour channels / blob bytes (scalar and array member).  Unused symbolic arguments are pinned."""
     d = _dmx()
     _stub_structs()
-    assume(-2 ** 31 <= iv < 2 ** 31 and -2 ** 31 <= iw < 2 ** 31)
-    assume(0 <= r < 256 and 0 <= g < 256 and 0 <= b < 256 and 0 <= a < 256)
     assume(len(blob) == nblob)
+    if kind != "int":
+        assume(iv == 0 and iw == 0)
+    if kind != "bool":
+        assume(not bv)
+    if kind != "color":
+        assume(r == 0 and g == 0 and b == 0 and a == 0)
+    if kind != "blob":
+        assume(nblob == 0)
     A, VT = d.Attribute, d.ValueType
     root = d.Element("Root", "DmeRoot", _u(1))
     kid = d.Element("Kid", "DmeNode", _u(2))
-    root["i"] = A("i", VT.INT, iv)
-    root["ia"] = A("ia", VT.INT, [iw, iv])
-    root["flag"] = A("flag", VT.BOOL, bv)
-    root["flags"] = A("flags", VT.BOOL, [True, bv, False])
-    root["col"] = A("col", VT.COLOR, d.Color(r, g, b, a))
+    root["before"] = A("before", VT.BINARY, b"\x01\x02")
+    if kind == "int":
+        assume((-2 ** 31 <= iv) & (iv < 2 ** 31) & (-2 ** 31 <= iw) & (iw < 2 ** 31))
+        root["i"] = A("i", VT.INT, iv)
+        kid["ia"] = A("ia", VT.INT, [iw, 7, iv])
+    elif kind == "bool":
+        root["flag"] = A("flag", VT.BOOL, bv)
+        kid["flags"] = A("flags", VT.BOOL, [True, bv, False])
+    elif kind == "color":
+        assume((0 <= r) & (r < 256) & (0 <= g) & (g < 256) & (0 <= b) & (b < 256) & (0 <= a) & (a < 256))
+        col = object.__new__(d.Color)               # the attrs converter clamps (forks); the range is a precondition here
+        for nm, val in (("r", r), ("g", g), ("b", b), ("a", a)):
+            object.__setattr__(col, nm, val)
+        root["col"] = A("col", VT.COLOR, col)
+        kid["cols"] = A("cols", VT.COLOR, [d.Color(1, 2, 3, 4), col])
+    else:
+        root["blob"] = A("blob", VT.BINARY, blob)
+        kid["blobs"] = A("blobs", VT.BINARY, [b"\x00", blob, b""])
     root["kid"] = kid
-    kid["blob"] = A("blob", VT.BINARY, blob)
-    kid["blobs"] = A("blobs", VT.BINARY, [b"\x00", blob, b""])
-    kid["cols"] = A("cols", VT.COLOR, [d.Color(a, b, g), d.Color(1, 2, 3, 4)])
     kid["back"] = root
+    root["after"] = "tail"
     f = _new_file()
     root.export_binary(f, version, "fmtname", 7)
     f.seek(_header_end(f))
     new = d.Element.parse_bin(f, version, False)
     check(f.read(1) == b"", "binary parser did not consume the whole file")
     _iso(root, new)
-    nk = new["kid"].val_elem
-    check(type(new["i"].val_int) is int or _ENGINE == "chx", "int type")
-    check(len(nk["blob"].val_bytes) == nblob, "blob length", len(nk["blob"].val_bytes))
-    check(new["flag"].val_bool is (True if bv else False) or _ENGINE == "chx", "bool identity")
+    if kind == "blob":
+        check(len(new["blob"].val_bytes) == nblob, "blob length", len(new["blob"].val_bytes))
 
 
-def h_values_witness(iv: int, iw: int, bv: bool, r: int, g: int, b: int, a: int, blob: bytes, nblob: int, version: int) -> None:
-    h_values(iv, iw, bv, r, g, b, a, blob, nblob, version)
+def h_values_witness(iv: int, iw: int, bv: bool, r: int, g: int, b: int, a: int, blob: bytes, nblob: int, version: int, kind: str) -> None:
+    h_values(iv, iw, bv, r, g, b, a, blob, nblob, version, kind)
     raise Fail("reached")
 
 
@@ -750,6 +774,9 @@ def obligations(tier):
                     desc="an attribute assigned under a key that casefolds to 'name' ('Name', 'NAME') replaces the name attribute; the "
                          "element must still round-trip",
                     bound="2 keys x 9 encodings x 3 unicode modes"))
+    if os.environ.get("VF_C14_EMULATE_KNOWN"):     # development aid: what core does once the two proposals are in known_findings.json
+        obls[-2].slices = [dict(sl, _exclude=[KNOWN_REGIONS["strings.valuetype_names"]]) for sl in obls[-2].slices]
+        obls[-1].slices = [dict(sl, _exclude=[KNOWN_REGIONS["strings.name_casing"]]) for sl in obls[-1].slices]
     obls.append(Obl("strings.witness", MOD, "h_strings_witness", slices=[{"slot": "attr"}], budget_s=120, per_path_s=60, witness=True,
                     desc="reachability twin"))
     obls.append(Obl("types.roundtrip", MOD, "h_types", slices=[{}], budget_s=900, per_path_s=60,
@@ -757,13 +784,14 @@ def obligations(tier):
                          "the independent decoder sees Valve's type byte (scalar 1..14, array 15..28) and array length",
                     bound="14 types x 4 shapes x 9 encodings x 3 unicode modes by symbolic index; concrete exact constants"))
     obls.append(Obl("types.witness", MOD, "h_types_witness", slices=[{}], budget_s=120, per_path_s=60, witness=True, desc="reachability twin"))
-    vs = [{"version": v, "nblob": n} for v in (1, 2, 3, 4, 5) for n in ((1,) if quick else (0, 1, 2, 3))]
-    if quick:
-        vs += [{"version": 5, "nblob": 0}, {"version": 2, "nblob": 2}]
-    obls.append(Obl("values.binary", MOD, "h_values", slices=vs, budget_s=900, per_path_s=120,
-                    desc="binary export -> parse_bin with symbolic int32 (scalar + array), bool, 4 colour channels and blob bytes: exact values",
-                    bound="versions 1-5; every int32, every colour, every blob of exact length 0-2 (thorough 0-3)"))
-    obls.append(Obl("values.witness", MOD, "h_values_witness", slices=[{"version": 5, "nblob": 1}], budget_s=120, per_path_s=60,
+    vs = [{"version": v, "nblob": 0, "kind": k} for v in (1, 2, 3, 4, 5) for k in ("int", "bool", "color")]
+    vs += [{"version": v, "nblob": n, "kind": "blob"} for v in ((2, 5) if quick else (1, 2, 3, 4, 5)) for n in ((1,) if quick else (1, 2))]
+    obls.append(Obl("values.binary", MOD, "h_values", slices=vs, budget_s=900, per_path_s=300,
+                    desc="binary export -> parse_bin with symbolic wire values, one kind per slice: int32 (scalar + array), bool (scalar + "
+                         "array), 4 colour channels, blob bytes (scalar + array member): exact values, types and shapes",
+                    bound="versions 1-5; every int32 pair, both bools, every colour, every blob of exact length 1 (thorough 1-2; empty blobs "
+                          "are concrete members of every case)"))
+    obls.append(Obl("values.witness", MOD, "h_values_witness", slices=[{"version": 5, "nblob": 0, "kind": "int"}, {"version": 4, "nblob": 0, "kind": "color"}], budget_s=120, per_path_s=60,
                     witness=True, desc="reachability twin"))
     nb = 2 if quick else 5
     ks = [{"mode": "direct", "nv": n, "nblk": nb} for n in ((1,) if quick else (0, 1, 2))]
